@@ -46,8 +46,8 @@ impl<'a> Drop for Guard<'a> { fn drop(&mut self) { unsafe { G.locked = false; } 
 pub struct RwLock { pub inner: std::cell::UnsafeCell<MatchedMap> }
 impl RwLock { pub fn write(&self) -> Result<Guard<'_>, ()> { unsafe { G.locked = true; Ok(Guard { m: &mut *self.inner.get() }) } } }
 
-pub struct Ghost { pub locked: bool, pub write_unlocked: bool, pub min_upd: Option<u64>, pub blk_upd: Option<u64>, pub added: Option<(u64, u64, Vec<(Byte32, bool)>)>, pub asked: Option<u64>, pub mem_added: usize }
-pub static mut G: Ghost = Ghost { locked: false, write_unlocked: false, min_upd: None, blk_upd: None, added: None, asked: None, mem_added: 0 };
+pub struct Ghost { pub locked: bool, pub write_unlocked: bool, pub min_upd: Option<u64>, pub blk_upd: Option<u64>, pub added: Option<(u64, u64, Vec<(Byte32, bool)>)>, pub asked: Option<u64>, pub mem_added: usize, pub seq: usize, pub min_at: usize, pub added_at: usize, pub blk_at: usize }
+pub static mut G: Ghost = Ghost { locked: false, write_unlocked: false, min_upd: None, blk_upd: None, added: None, asked: None, mem_added: 0, seq: 0, min_at: 0, added_at: 0, blk_at: 0 };
 fn wr() { unsafe { if !G.locked { G.write_unlocked = true; } } }
 
 pub struct Storage { pub scripts_empty: bool, pub min_filtered: u64, pub earliest: Option<(u64, u64, Vec<(Byte32, bool)>)>, pub fin_idx: u32, pub fh: [Byte32; WIN] }
@@ -55,10 +55,10 @@ impl Storage {
     pub fn is_filter_scripts_empty(&self) -> bool { self.scripts_empty }
     pub fn get_min_filtered_block_number(&self) -> u64 { self.min_filtered }
     pub fn get_earliest_matched_blocks(&self) -> Option<(u64, u64, Vec<(Byte32, bool)>)> { unsafe { if self.earliest.is_none() { G.added } else { self.earliest } } }
-    pub fn update_block_number(&self, n: u64) { unsafe { G.blk_upd = Some(n); } }
+    pub fn update_block_number(&self, n: u64) { unsafe { G.blk_upd = Some(n); G.seq += 1; G.blk_at = G.seq; } }
     pub fn get_last_check_point(&self) -> (u32, Byte32) { (self.fin_idx, self.fh[(self.fin_idx as u64 * INTERVAL) as usize]) }
     pub fn get_check_points(&self, idx: u32, limit: usize) -> Vec<Byte32> { let mut v = Vec::new(); let mut i = idx; while (i <= self.fin_idx) && v.len() < limit { v.push(self.fh[(i as u64 * INTERVAL) as usize]); i += 1; } v }
-    pub fn add_matched_blocks(&self, start: u64, count: u64, blocks: Vec<(Byte32, bool)>) { assert!(!blocks.is_empty(), "REAL-PANIC: add_matched_blocks called with no matched block"); wr(); unsafe { G.added = Some((start, count, blocks)); } }
+    pub fn add_matched_blocks(&self, start: u64, count: u64, blocks: Vec<(Byte32, bool)>) { assert!(!blocks.is_empty(), "REAL-PANIC: add_matched_blocks called with no matched block"); wr(); unsafe { G.added = Some((start, count, blocks)); G.seq += 1; G.added_at = G.seq; } }
     pub fn get_tip_header(&self) -> packed::Header { packed::Header }
 }
 pub struct Peers { pub state: Option<PeerState>, pub mb: RwLock, pub cached_idx: u32, pub cached_len: usize, pub latest_len: usize, pub fh: [Byte32; WIN] }
@@ -80,7 +80,7 @@ pub struct FilterProtocol { pub storage: Storage, pub peers: Arc<Peers>, pub mat
 impl FilterProtocol {
     /// Golomb-coded-set matching is uninterpreted: an arbitrary subset of the first `limit` filters matches
     pub fn check_filters_data(&self, bf: packed::BlockFilters, limit: usize) -> Vec<Byte32> { let mut v = Vec::new(); let mut i = 0; while i < limit && i < bf.filters.len() { if self.matched[i] { v.push(bf.hashes[i]); } i += 1; } v }
-    pub fn update_min_filtered_block_number(&self, n: u64) { unsafe { G.min_upd = Some(n); } }
+    pub fn update_min_filtered_block_number(&self, n: u64) { unsafe { G.min_upd = Some(n); G.seq += 1; G.min_at = G.seq; } }
     pub fn send_get_block_filters(&self, _nc: Arc<Nc>, _p: PeerIndex, n: u64) { unsafe { G.asked = Some(n); } }
     pub fn try_send_get_block_filter_hashes(&self, _nc: Arc<Nc>) {}
 }
@@ -144,6 +144,10 @@ mod harness {
                     Some((s, c, blocks)) => { assert!(s == start && c == accepted as u64, "SPEC filters: record range is not the accepted range"); assert!(blocks == want, "SPEC filters: recorded block hashes are not the message's hashes at the matching indices"); }
                     None => { assert!(want.len == 0, "SPEC filters: a matching filter was dropped without a record"); }
                 }
+                // crash order (C08): these are separate storage writes; the filtered height is persisted LAST - a crash before it repeats the batch, whereas a filtered
+                // height persisted before the matched-block record (or before the script numbers) is a batch that is never examined again
+                if G.added.is_some() { assert!(G.added_at < G.min_at, "SPEC crash order: the filtered height is persisted before the matched-block record of the same batch (a crash in between loses the matched blocks)"); }
+                if G.blk_upd.is_some() { assert!(G.blk_at < G.min_at, "SPEC crash order: the filtered height is persisted before the script block numbers of the same batch"); }
                 // a script's recorded number is raised only when nothing is pending
                 if let Some(b) = G.blk_upd { assert!(b == f && want.len == 0 && mem0 == 0, "SPEC filters: script block numbers raised although matched blocks are pending"); }
                 kani::cover!(accepted == 2 && start > fin_no, "two filters accepted against the latest hashes");
